@@ -8,6 +8,8 @@ SPEC = {
          "thorough": {"checks": 800, "shards": 16, "timeout": 3000}},
         {"name": "history-race", "pkg": O4, "kind": "rapid", "run": "^TestVerifC04History$", "tiers": ("thorough",),
          "thorough": {"checks": 150, "shards": 8, "timeout": 3000, "race": True}},
+        {"name": "near-capacity", "pkg": O4, "kind": "plain", "run": "^TestVerifC04NearCapacity$",
+         "quick": {"timeout": 300}, "thorough": {"timeout": 600}},
         {"name": "hour-rollover", "pkg": O4, "kind": "plain", "run": "^TestVerifC04HourRollover$",
          "quick": {"timeout": 300}, "thorough": {"timeout": 600}},
     ],
@@ -19,7 +21,7 @@ TEXT = {
     "level_text": ("Exploration. Histories of up to 12 operations against one running server factory: fresh handshakes stamped with hour "
                    "offsets -3..+3, replays of any earlier handshake, and k simultaneous copies of one handshake. A set model decides "
                    "acceptance; accepted replies must verify under the hour the client stamped and carry data; rejected ones must be "
-                   "indistinguishable from invalid input (C03 oracle); exactly one of k concurrent copies wins (also under -race)."),
+                   "indistinguishable from invalid input (C03 oracle); exactly one of k concurrent copies wins (also under -race). A near-capacity unit fills the bridge's own replay filter with up to 102398 synthetic entries between the acceptance of a real handshake and its replay."),
     "level_note": ("The real clock is used (monotone during a case; cases straddling an hour change are discarded; replays across a real hour change are only exercised when a run happens to start within 10 s (quick) / 150 s (thorough) of a full hour). The 3-hour TTL is "
                    "not waited for; expiry semantics are C11's. Fewer than 102400 remembered handshakes per case."),
 }
